@@ -55,7 +55,7 @@ class Geo:
         for _ in range(2):
             a = round(rnd.uniform(6.3e6, 6.4e6), 3)
             invf = round(rnd.uniform(280, 320), 6)
-            self.ells.append(("rand(%s,%s)" % (a, invf), gc.Ellipsoid(a, invf)))
+            self.ells.append(("rand(%s,%s)" % (a, invf), alpha.build(gc.Ellipsoid, a, invf)))
         self.calls = 0
 
     def ell(self, cls):
@@ -65,7 +65,8 @@ class Geo:
 
     def ell_rec(self, e):
         name, E = e
-        return {"name": name, "a": E_(E.semimaj), "invf": E_(E.inversef), "n0": E_(1.0 / (2.0 * float(E.inversef) - 1.0))}
+        a, invf = alpha.defn(E, "semimaj", "inversef")          # what the ellipsoid was built with, not what it says afterwards
+        return {"name": name, "a": E_(a), "invf": E_(invf), "n0": E_(1.0 / (2.0 * invf - 1.0))}
 
     def arcs(self, ctx):
         """meridian distances for every (ellipsoid, triple) from TLC (ArcService)"""
@@ -105,7 +106,7 @@ class Geo:
         """a NEW Ellipsoid object with the same defining numbers for every call: the property quantifies over arbitrary
         ellipsoids, and user code builds them on the fly (short-lived objects, recycled ids)"""
         self.keep = getattr(self, "keep", [])
-        e = self.gc.Ellipsoid(E.semimaj, E.inversef)
+        e = alpha.build(self.gc.Ellipsoid, *alpha.defn(E, "semimaj", "inversef")) if hasattr(E, "_verif_defn") else self.gc.Ellipsoid(E.semimaj, E.inversef)
         self.keep = (self.keep + [e])[-2:]
         return e
 
